@@ -128,6 +128,7 @@ pub fn extract(comp_arg: &str, alpha_name: &str, cap: usize, w: &mut dyn Write, 
     let mut states: Vec<(String, Vec<usize>)> = Vec::new();
     ids.insert(m0.id(), 0);
     states.push((m0.id(), Vec::new()));
+    let mut recs: Vec<Value> = Vec::new();
     let mut next = 0usize;
     while next < states.len() {
         let (id, access) = states[next].clone();
@@ -177,7 +178,55 @@ pub fn extract(comp_arg: &str, alpha_name: &str, cap: usize, w: &mut dyn Write, 
                 "out": outs, "q": qs, "post": posts
             })
         };
-        writeln!(w, "{}", rec).unwrap();
+        recs.push(rec);
         next += 1;
     }
+    let cls = moore_classes(&recs);
+    for (i, mut rec) in recs.into_iter().enumerate() {
+        rec["cls"] = json!(cls[i]);
+        writeln!(w, "{}", rec).unwrap();
+    }
+}
+
+/// Behavioural equivalence classes of the extracted automaton (Moore partition refinement on
+/// outputs and successor classes; generic, knows nothing about keyboards). Two states get the
+/// same class number iff no input sequence distinguishes them. Unexpanded states and the
+/// pseudo-successor 0 (panic) each form their own class. Lets the graph predicates say "back in
+/// the initial condition" without relying on renderings being canonical.
+fn moore_classes(recs: &[Value]) -> Vec<usize> {
+    let n = recs.len();
+    let mut cls: Vec<usize> = vec![0; n];
+    // initial partition: by output vector (unexpanded: unique)
+    let mut sig0: HashMap<String, usize> = HashMap::new();
+    for (i, r) in recs.iter().enumerate() {
+        let key = if r["expanded"].as_bool().unwrap_or(false) {
+            format!("{}|{}", r["out"], r.get("q").map(|q| q.to_string()).unwrap_or_default())
+        } else {
+            format!("unexpanded{}", i)
+        };
+        let nx = sig0.len() + 1;
+        cls[i] = *sig0.entry(key).or_insert(nx);
+    }
+    loop {
+        let mut sig: HashMap<(usize, Vec<usize>), usize> = HashMap::new();
+        let mut ncls = vec![0usize; n];
+        for (i, r) in recs.iter().enumerate() {
+            let succ: Vec<usize> = r["post"]
+                .as_array()
+                .map(|p| p.iter().map(|x| { let j = x.as_u64().unwrap_or(0) as usize; if j == 0 { 0 } else { cls[j - 1] } }).collect())
+                .unwrap_or_default();
+            let nx = sig.len() + 1;
+            ncls[i] = *sig.entry((cls[i], succ)).or_insert(nx);
+        }
+        let stable = {
+            let a: std::collections::HashSet<usize> = cls.iter().copied().collect();
+            let b: std::collections::HashSet<usize> = ncls.iter().copied().collect();
+            a.len() == b.len()
+        };
+        cls = ncls;
+        if stable {
+            break;
+        }
+    }
+    cls
 }
